@@ -93,6 +93,7 @@ private:
    */
   void loadOutIndex(std::ifstream& graphFile, uint64_t nodeStart,
                     uint64_t numNodesToLoad) {
+    nodeOffset = nodeStart;
     if (numNodesToLoad == 0) {
       return;
     }
@@ -133,6 +134,8 @@ private:
    */
   void loadEdgeDest(std::ifstream& graphFile, uint64_t edgeStart,
                     uint64_t numEdgesToLoad, uint64_t numGlobalNodes) {
+    // save edge offset of this graph for later use (also when nothing is read)
+    edgeOffset = edgeStart;
     if (numEdgesToLoad == 0) {
       return;
     }
